@@ -457,6 +457,14 @@ def realise_multirule(item):
         one = {"quadrature_rule": "custom", "quadrature_points": np.array([[float(c) for c in c0]]),
                "quadrature_weights": np.array([0.5])}
         form = f * inner(u, v) * dx(metadata=one) + f * g * inner(u, v) * dA
+        if item["mr"]["onepoint"] in (2, 3):
+            # two DIFFERENT one-point rules: the value is "constant over the points" in both, at different points
+            c1 = [c / 2 for c in c0]
+            two = {"quadrature_rule": "custom", "quadrature_points": np.array([[float(c) for c in c1]]),
+                   "quadrature_weights": np.array([0.25])}
+            form = f * inner(u, v) * dx(metadata=one) + f * g * inner(u, v) * dx(metadata=two)
+            if item["mr"]["onepoint"] == 3:
+                form = form + g * f * inner(grad(u), grad(v)) * dA
     if item["mr"].get("samesize"):
         # the same integrand under two different rules with the same number of points (the second is the first
         # shrunk towards the origin): anything cached per rule *size* instead of per rule is shared wrongly
